@@ -450,6 +450,8 @@ class Interp:
         if isinstance(op, (ast.In, ast.NotIn)) and isinstance(b, (DictV,)) and isinstance(a, K):
             r = a.v in b.d
             return K(r if isinstance(op, ast.In) else not r)
+        if isinstance(op, (ast.In, ast.NotIn)) and isinstance(b, ListV) and not b.items:
+            return K(isinstance(op, ast.NotIn))
         if isinstance(op, (ast.In, ast.NotIn)) and isinstance(b, ListV) and isinstance(a, K) and all(isinstance(x, K) for x in b.items):
             r = a.v in [x.v for x in b.items]
             return K(r if isinstance(op, ast.In) else not r)
@@ -696,6 +698,8 @@ class Interp:
             self.emit("visit", "folded(" + self.label(local.get("node")) + ")", self.label(local.get("frame")), "expr", e.lineno, {})
             return K(None)
         self.stack.append(name)
+        if f.owner is not None:
+            self.emit("call", name, e.lineno)
         try:
             self.exec_block(fn.body, f.closure + [local])  # type: ignore[attr-defined]
         except _Return as r:
@@ -742,6 +746,9 @@ class Interp:
         if isinstance(base, Obj) and base.kind == "EvalCtx" and attr == "save":
             return U("saved_ctx")
         if isinstance(base, ListV):
+            if attr == "add":
+                base.items.append(args[0])
+                return K(None)
             if attr == "append":
                 base.items.append(args[0])
                 return K(None)
@@ -848,7 +855,7 @@ class Interp:
                     d[k.arg] = v
             return DictV(d)
         if fsrc == "set":
-            return U("set()") if not args else U(self.src(e))
+            return ListV([]) if not args else U(self.src(e))
         if fsrc == "any" or fsrc == "all":
             return U(self.src(e), "bool")
         if fsrc in ("t.cast", "typing.cast") and len(args) == 2:
@@ -1259,7 +1266,7 @@ class EmitModel:
                 raise AnalysisError(f"emission model: step limit in {entry}") from None
             except Unsupported as e:
                 raise AnalysisError(f"emission model: unsupported construct in {entry}: {e}") from None
-            decisions = {lab: (c == 0 if n == 2 else c) for lab, n, c in oracle.trace}
+            decisions = {lab: (c if (n != 2 or (lab.startswith("len(") and lab.endswith(")") and " == " not in lab)) else c == 0) for lab, n, c in oracle.trace}
             paths.append(Path(it.events, decisions, outcome, it.indent))
             if len(paths) > max_paths:
                 raise AnalysisError(f"emission model: more than {max_paths} paths in {entry}")
